@@ -44,7 +44,7 @@ CHECKS = {
         'harnesses': [
             {'name': 'Harness_C04_artifact', 'pkg': 'saml', 'replay': 'direct', 'must_reach': ['accepted', 'rejected'], 'validate_labels': ['accepted'], 'label_prefix': 'C03', 'opts': {'params': {'artifact.layouts': 0}, 'K': 1}},
             {'name': 'Harness_C03_flow', 'pkg': 'saml', 'replay': 'direct', 'must_reach': ['accepted', 'rejected', 'accepted-signed-response'],
-             'opts': {'time_res': 1000000}, 'quick': {'K': 1}, 'thorough': {'K': 1}},
+             'opts': {'time_res': 1000000, 'params': {'status.nested': 1}}, 'quick': {'K': 1}, 'thorough': {'K': 1}},
             {'name': 'Harness_C03_assertion', 'pkg': 'saml', 'replay': 'direct', 'must_reach': ['accepted', 'rejected', 'accepted-with-audience'],
              'opts': {'time_res': 1000000}, 'quick': {'K': 2}, 'thorough': {'K': 3}},
         ],
@@ -203,6 +203,7 @@ CHECKS = {
             {'name': 'Harness_C14_endpoint', 'pkg': 'saml', 'replay': 'direct', 'must_reach': ['accepted', 'rejected', 'accepted-known-binding'],
              'validate_labels': ['accepted', 'accepted-known-binding']},
             {'name': 'Harness_C14_indexed', 'pkg': 'saml', 'replay': 'direct', 'must_reach': ['accepted', 'rejected'], 'validate_labels': ['accepted']},
+            {'name': 'Harness_C14_loginform', 'pkg': 'samlidp', 'replay': 'direct', 'must_reach': ['login-form']},
             {'name': 'Harness_C14_forms', 'pkg': 'saml', 'replay': 'direct', 'must_reach': ['authn-request-form', 'logout-request-form', 'logout-response-form', 'idp-response-form'],
              'opts': {'no_sign_err': True}, 'quick': {'params': {'rand.mayfail': 0}}, 'thorough': {'params': {'rand.mayfail': 0}}},
         ],
